@@ -1,0 +1,17 @@
+//go:build verif
+
+package utils
+
+// Contracts checked by /verif/govc (comment-only file; build tag verif).
+
+// ---------------------------------------------------------------------------
+// C19 — Split trims every item it returns (the --disable-config-keywords list
+// is compared with first tokens, which carry no blanks)
+//@ count Trim = strings.TrimSpace
+//@ func Split
+//@   props C19
+//@   ensures trimmed: s != "" ==> calls(Trim) == len(result)
+//@   ensures empty:   s == "" ==> len(result) == 0
+//@   loop 1 invariant each: 0 <= $idx(1) && $idx(1) <= len(out) && calls(Trim) == $idx(1)
+//@   at call TrimSpace#1 assert item: $arg0 == out[i]
+//@ end
